@@ -12,7 +12,7 @@ ORACLE_RULE = ("C05: indicator kind (rotating over " + ", ".join(od.KINDS[ID]) +
 ASSUMPTIONS = ["helper indicator series may be rounded to 4 decimals (they do not inherit round_value); the budget allows max(0.5e-4, 0.5*10^-round_value) per helper series",
                "float noise allowance 1e-10 relative to the input scale on top of the rounding budget",
                "points where the textbook formula is 0/0 (flat high-low window, zero traded volume, zero smoothed |momentum|, zero ATR) are not constrained here (C09 covers them)"]
-PARTIAL = 'exact ordered field with abstract rounding. Proved: every single call of all eleven indicators, and the WHOLE SERIES of every one of them on every raw stream (engine, batch run, every append schedule) with true warm-up indices and budgets: TR, HLA, ATR (first reading at index p; p eps + eps_4 against the exact true ranges), STDEV (first at p), BBANDS, KC, Donchian, HighestLowest, Supertrend (= the textbook state machine on the stored helper readings; flips exactly on the break of the previous active band - true after fix 0d81c09), STDEV-threshold, Counter (every float carrier); C05_FULL_holds. Indicator-valued / late-starting inputs: C05_inputs_FULL as first written is refuted (bool among the first t0 inputs) and, with the input None on the first t0 candles, PROVED over every candle list for STDEV, BBANDS, STDEVTHRES (C05_inputs_partial_holds, C05_BBANDS_/STDEVTHRES_inputs_holds). KC (ATR part as on raw candles, EMA part shifted: C05_KC_inputs_holds) and Supertrend (its input feeds nothing: supertrend_input_irrelevant) likewise. Open: collapsing timeframe at the numeric level over such inputs; IEEE effects'
+PARTIAL = 'exact ordered field with abstract rounding. Proved: every single call of all eleven indicators, and the WHOLE SERIES of every one of them on every raw stream (engine, batch run, every append schedule) with true warm-up indices and budgets: TR, HLA, ATR (first reading at index p; p eps + eps_4 against the exact true ranges), STDEV (first at p), BBANDS, KC, Donchian, HighestLowest, Supertrend (= the textbook state machine on the stored helper readings; flips exactly on the break of the previous active band - true after fix 0d81c09), STDEV-threshold, Counter (every float carrier); C05_FULL_holds. Indicator-valued / late-starting inputs: C05_inputs_FULL as first written is refuted (bool among the first t0 inputs) and, with the input None on the first t0 candles, PROVED over every candle list for STDEV, BBANDS, STDEVTHRES (C05_inputs_partial_holds, C05_BBANDS_/STDEVTHRES_inputs_holds). KC (ATR part as on raw candles, EMA part shifted: C05_KC_inputs_holds) and Supertrend (its input feeds nothing: supertrend_input_irrelevant) likewise. Round 7: the whole-series statements of all eleven on EVERY manager (x_series_on_manager / _on_tf / _on_fillHA). Open: such managers combined with indicator-valued inputs; IEEE effects'
 _case = od.make_case(ID)
 
 
